@@ -402,6 +402,9 @@ def gen_archive(rng, tier, plain_only=False, with_long=False):
     align = rng.weighted([(4096, 3), (512, 2), (1, 4), (16, 1)])
     gaps = rng.weighted([("none", 3), ("small", 3), ("big", 1)])
     pos = base
+    high = rng.chance(0.12)
+    if high:
+        pos = max(pos, rng.pick([65536, 65536 + 4096, 70001, 131072]))     # recorded offsets beyond 16 bits
     share = rng.chance(0.15)
     alias = rng.chance(0.15) and base >= 1024
     prev = None
@@ -434,7 +437,7 @@ def gen_archive(rng, tier, plain_only=False, with_long=False):
         tail_len += rng.randint(0, 3000)           # unreferenced bytes after the last area
     trail = rng.weighted([(0, 4), (rng.randint(1, 20), 3)])
     c = {"items": items, "term_blocks": term, "tail": {"len": tail_len, "seed": rng.randrange(256)}, "trail_blocks": trail,
-         "placement": placement, "align": align, "gaps": gaps, "mix": mix}
+         "placement": placement, "align": align, "gaps": gaps, "mix": mix, "high": high}
     total = base + tail_len + trail * 512
     # aliased areas must lie inside the file
     for m in items:
@@ -819,13 +822,20 @@ class VmTarSuite(Suite):
         if len(data) > 400_000:
             return None
         f = file_term(regions)
+        # the standard-reader model (va = false) is evaluated on every plain / malformed case and on a third
+        # of the others (it is the same computation again; its tie to tarfile.TarInfo needs fewer cases)
+        std = "run false f" if self.wants_std(case, data) else "skip_run"
         if case["stream"] in ("wf",):
             a = "[" + "; ".join(member_term(m) for m in case["items"]) + "]"
             return (f"let f := {f} in let a := {a} in "
-                    f"(run true f, run false f, (wf_archiveb a, list_eqb (firstn (length (render a)) f) (render a), "
+                    f"(run true f, {std}, (wf_archiveb a, list_eqb (firstn (length (render a)) f) (render a), "
                     f"map (fun e => ((e_name e, e_link e, (e_type e, e_size e, e_off e, e_data e), "
                     f"(e_visor e, e_text e, e_fix e)), spec_extract e)) (listing 0 a)))")
-        return f"let f := {f} in (run true f, run false f)"
+        return f"let f := {f} in (run true f, {std})"
+
+    @staticmethod
+    def wants_std(case, data):
+        return case["stream"] in ("plain", "malformed") or VISOR7 not in data or len(data) % 3 == 0
 
     # -- spec side computed in Python for the streams the Coq spec does not cover (long records)
     def py_spec(self, case):
@@ -1020,6 +1030,7 @@ class VmTarSuite(Suite):
         d["placement"] = case["placement"]
         d["align"] = case["align"]
         d["gaps"] = case["gaps"]
+        d["offsets_beyond_64k"] = any(m["voff"] >= 65536 for m in items)
         d["term_blocks"] = case["term_blocks"]
         d["trail"] = "0" if case["trail_blocks"] == 0 else "1+"
         d["long_records"] = sum(1 for m in case["items"] if m.get("payload") is not None)
